@@ -121,7 +121,9 @@ static void run_C01(const Args &a, long cs) {
 		else count("points-trivial(M=0)");
 		struct { const char *name; double v; LD tol; } chk[] = {{"ndsplineeval<float>", vf_, tf}, {"ndsplineeval<double>", vd, td}, {"operator()", vo, tf}, {"C:ndsplineeval", vc, tf},
 			{"evaluator<float>::ndsplineeval", ef1, tf}, {"evaluator<float>::operator()", ef2, tf}, {"evaluator<double>::ndsplineeval", ed1, td}, {"evaluator<double>::operator()", ed2, td}};
+		if (!rv.float_range_ok()) count("points-beyond-float-range(float-paths-not-judged)");
 		for (auto &k : chk) {
+			if (k.tol == tf && !rv.float_range_ok()) continue;
 			LD err = fabsl((LD)k.v - rv.S);
 			if (!(err <= k.tol)) {
 				viol(std::string("C01:") + k.name + ":value-mismatch:" + tag,
@@ -195,13 +197,14 @@ static void run_C02(const Args &a, long cs) {
 			phase("ndsplineeval<float>(mask)"); double lf = T.ndsplineeval<float>(x.data(), c.data(), m);
 			phase("ndsplineeval<double>(mask)"); double ld_ = T.ndsplineeval<double>(x.data(), c.data(), m);
 			phase("evaluator(mask)"); double lef = Ef.ndsplineeval(x.data(), c.data(), m), led = Ed.ndsplineeval(x.data(), c.data(), m);
-			if (!(fabsl((LD)lef - rv.S) <= tf)) viol("C02:evaluator<float>(mask):derivative-mismatch:" + tag, "{\"mask\":" + std::to_string(m) + ",\"lib\":" + jnum(lef) + ",\"ref\":" + jnum((double)rv.S) + ",\"tol\":" + jnum((double)tf) + ",\"point\":" + pt_json(s, x, c) + "}");
+			if (rv.float_range_ok() && !(fabsl((LD)lef - rv.S) <= tf)) viol("C02:evaluator<float>(mask):derivative-mismatch:" + tag, "{\"mask\":" + std::to_string(m) + ",\"lib\":" + jnum(lef) + ",\"ref\":" + jnum((double)rv.S) + ",\"tol\":" + jnum((double)tf) + ",\"point\":" + pt_json(s, x, c) + "}");
 			if (!(fabsl((LD)led - rv.S) <= td)) viol("C02:evaluator<double>(mask):derivative-mismatch:" + tag, "{\"mask\":" + std::to_string(m) + ",\"lib\":" + jnum(led) + ",\"ref\":" + jnum((double)rv.S) + ",\"tol\":" + jnum((double)td) + ",\"point\":" + pt_json(s, x, c) + "}");
 			count("mask-derivative-checks");
 			if (rv.M > 0 || ord0) distinct(hash_mix(h, 1000 + m));
 			std::string sub = ord0 ? ":order0-axis" : "";
 			if (ord0) count("mask-checks-on-order0-axis");
-			if (!(fabsl((LD)lf - rv.S) <= tf)) viol("C02:ndsplineeval<float>(mask):derivative-mismatch" + sub + ":" + tag, "{\"mask\":" + std::to_string(m) + ",\"lib\":" + jnum(lf) + ",\"ref\":" + jnum((double)rv.S) + ",\"M\":" + jnum((double)rv.M) + ",\"tol\":" + jnum((double)tf) + ",\"point\":" + pt_json(s, x, c) + "}");
+			bool frange = rv.float_range_ok(); if (!frange) count("requests-beyond-float-range(float-paths-not-judged)");
+			if (frange && !(fabsl((LD)lf - rv.S) <= tf)) viol("C02:ndsplineeval<float>(mask):derivative-mismatch" + sub + ":" + tag, "{\"mask\":" + std::to_string(m) + ",\"lib\":" + jnum(lf) + ",\"ref\":" + jnum((double)rv.S) + ",\"M\":" + jnum((double)rv.M) + ",\"tol\":" + jnum((double)tf) + ",\"point\":" + pt_json(s, x, c) + "}");
 			if (!(fabsl((LD)ld_ - rv.S) <= td)) viol("C02:ndsplineeval<double>(mask):derivative-mismatch" + sub + ":" + tag, "{\"mask\":" + std::to_string(m) + ",\"lib\":" + jnum(ld_) + ",\"ref\":" + jnum((double)rv.S) + ",\"M\":" + jnum((double)rv.M) + ",\"tol\":" + jnum((double)td) + ",\"point\":" + pt_json(s, x, c) + "}");
 		}
 		// ---- gradient
@@ -217,7 +220,7 @@ static void run_C02(const Args &a, long cs) {
 				else if (variant == 2) Ef.ndsplineeval_gradient(x.data(), c.data(), grad.p); else Ed.ndsplineeval_gradient(x.data(), c.data(), grad.p);
 				if (std::isfinite((double)rv0.M)) {
 					LD t0 = ref_tol(s, rv0, prec);
-					if (!(fabsl((LD)grad.p[0] - rv0.S) <= t0)) viol(std::string("C02:") + nm + ":value-lane-mismatch:" + tag, "{\"lib\":" + jnum(grad.p[0]) + ",\"ref\":" + jnum((double)rv0.S) + ",\"point\":" + pt_json(s, x, c) + "}");
+					if ((prec || rv0.float_range_ok()) && !(fabsl((LD)grad.p[0] - rv0.S) <= t0)) viol(std::string("C02:") + nm + ":value-lane-mismatch:" + tag, "{\"lib\":" + jnum(grad.p[0]) + ",\"ref\":" + jnum((double)rv0.S) + ",\"point\":" + pt_json(s, x, c) + "}");
 				}
 				for (int d = 0; d < nd; d++) {
 					std::vector<unsigned> ders(nd, 0); ders[d] = 1;
@@ -226,6 +229,7 @@ static void run_C02(const Args &a, long cs) {
 					LD t = tol_deriv(s, rv, ders.data(), prec);
 					count("gradient-component-checks");
 					std::string sub = s.order[d] == 0 ? ":order0-axis" : "";
+					if (!prec && !rv.float_range_ok()) continue;
 					if (!(fabsl((LD)grad.p[d + 1] - rv.S) <= t)) viol(std::string("C02:") + nm + ":gradient-component-mismatch" + sub + ":" + tag, "{\"component\":" + std::to_string(d) + ",\"lib\":" + jnum(grad.p[d + 1]) + ",\"ref\":" + jnum((double)rv.S) + ",\"M\":" + jnum((double)rv.M) + ",\"tol\":" + jnum((double)t) + ",\"point\":" + pt_json(s, x, c) + "}");
 				}
 			}
@@ -245,6 +249,7 @@ static void run_C02(const Args &a, long cs) {
 			distinct(hash_mix(h, hash_str(jarr(ders))));
 			std::string dj = "{\"ders\":" + jarr(ders) + ",\"lib\":" + jnum(lv);
 			if (above) {
+				{ std::vector<unsigned> dz = ders; for (int d = 0; d < nd; d++) if (dz[d] > s.order[d]) dz[d] = 0; RefVal rz = ref_eval_point(s, x.data(), dz.data()); if (!rz.float_range_ok()) { count("requests-beyond-float-range(float-paths-not-judged)"); continue; } } // other dimensions' factors must be finite in float for 0*factor to be 0
 				bool a0 = false, a1 = false;
 				for (int d = 0; d < nd; d++) if (ders[d] > s.order[d]) { if (s.order[d] == 0) a0 = true; else a1 = true; }
 				if (!(lv == 0)) viol(std::string("C02:ndsplineeval_deriv:derivative-above-order-not-zero") + (a0 ? ":order0-axis" : "") + (a1 ? ":order>=1-axis" : ""), dj + ",\"point\":" + pt_json(s, x, c) + "}");
@@ -253,6 +258,7 @@ static void run_C02(const Args &a, long cs) {
 			RefVal rv = ref_eval_point(s, x.data(), ders.data());
 			if (!std::isfinite((double)rv.M)) continue;
 			LD t = tol_deriv(s, rv, ders.data(), false);
+			if (!rv.float_range_ok()) { count("requests-beyond-float-range(float-paths-not-judged)"); continue; }
 			if (!(fabsl((LD)lv - rv.S) <= t)) {
 				// discriminate the on-knot/top-of-support class (one-sided convention for derivative orders >= 2)
 				bool topknot = false;
